@@ -325,13 +325,23 @@ impl Rt {
         &mut self,
         items: impl Registerable,
     ) -> Result<(), RegistrationError> {
-        let root = ScopeRef::GLOBAL;
         let items = items.into_lib().items;
-        self.declare_modules(None, &items)?;
-        self.declare_types(root, &items)?;
-        self.declare_functions(root, &items)?;
-        self.declare_constants(root, &items)?;
-        self.declare_imports(root, &items)?;
+        // an add that fails leaves the runtime as it was
+        let saved = self.clone();
+        let res = self.add_items(&items);
+        if res.is_err() {
+            *self = saved;
+        }
+        res
+    }
+
+    fn add_items(&mut self, items: &[Item]) -> Result<(), RegistrationError> {
+        let root = ScopeRef::GLOBAL;
+        self.declare_modules(None, items)?;
+        self.declare_types(root, items)?;
+        self.declare_functions(root, items)?;
+        self.declare_constants(root, items)?;
+        self.declare_imports(root, items)?;
         Ok(())
     }
 
